@@ -158,7 +158,9 @@ def desugar_ifexp(stmt):
 def desugar_tree(tree):
     """canonical forms on the parsed tree, each behaviour-preserving for an analysis that does not execute anything:
     (1) a simple statement holding a conditional expression becomes an if / else of the two specialised statements;
-    (2) an f-string without conversions / format specs becomes the equivalent "..{}..".format(..) call."""
+    (2) an f-string without conversions / format specs becomes the equivalent "..{}..".format(..) call;
+    (3) dict(a=x) becomes the literal {"a": x}; (4) a dict literal bound to a name and updated with literal items in the very
+    next statement becomes the one literal."""
     class F(ast.NodeTransformer):
         def visit_JoinedStr(self, n):
             tmpl, args = "", []
@@ -178,7 +180,48 @@ def desugar_tree(tree):
                     return n
             call = ast.Call(func=ast.Attribute(value=ast.Constant(value=tmpl), attr="format", ctx=ast.Load()), args=args, keywords=[])
             return ast.copy_location(call, n)
+
+        def visit_Call(self, n):
+            # (3) dict(a=x, b=y) is the literal {"a": x, "b": y}
+            self.generic_visit(n)
+            if isinstance(n.func, ast.Name) and n.func.id == "dict" and not n.args and n.keywords and all(k.arg is not None for k in n.keywords):
+                return ast.copy_location(ast.Dict(keys=[ast.Constant(value=k.arg) for k in n.keywords], values=[k.value for k in n.keywords]), n)
+            return n
     F().visit(tree)
+
+    def literal_items(call):
+        """X.update(a=1) / X.update({"a": 1}) -> [(key node, value node)] or None"""
+        if call.args and call.keywords:
+            return None
+        if len(call.args) == 1 and isinstance(call.args[0], ast.Dict) and all(isinstance(k, ast.Constant) for k in call.args[0].keys):
+            return list(zip(call.args[0].keys, call.args[0].values))
+        if not call.args and call.keywords and all(k.arg is not None for k in call.keywords):
+            return [(ast.Constant(value=k.arg), k.value) for k in call.keywords]
+        return None
+
+    def merge_updates(stmts):
+        """(4) X = {literal}; X.update(<literal items>)  ->  X = {literal with the items}  (adjacent statements, X a plain name
+        the items do not mention)"""
+        out = []
+        for s in stmts:
+            prev = out[-1] if out else None
+            if isinstance(s, ast.Expr) and isinstance(s.value, ast.Call) and isinstance(s.value.func, ast.Attribute) and s.value.func.attr == "update" \
+                    and isinstance(s.value.func.value, ast.Name) and isinstance(prev, ast.Assign) and len(prev.targets) == 1 \
+                    and isinstance(prev.targets[0], ast.Name) and prev.targets[0].id == s.value.func.value.id and isinstance(prev.value, ast.Dict) \
+                    and all(isinstance(k, ast.Constant) for k in prev.value.keys):
+                items = literal_items(s.value)
+                X = prev.targets[0].id
+                if items is not None and not any(isinstance(y, ast.Name) and y.id == X for _, v in items for y in ast.walk(v)):
+                    for k, v in items:
+                        hit = [i for i, k0 in enumerate(prev.value.keys) if k0.value == k.value]
+                        if hit:
+                            prev.value.values[hit[0]] = v
+                        else:
+                            prev.value.keys.append(ast.copy_location(k, s))
+                            prev.value.values.append(v)
+                    continue
+            out.append(s)
+        return out
 
     def fix(stmts):
         out = []
@@ -196,7 +239,7 @@ def desugar_tree(tree):
                 for h in s.handlers:
                     h.body = fix(h.body)
             out.append(s)
-        return out
+        return merge_updates(out)
     for node in ast.walk(tree):
         if isinstance(node, (ast.FunctionDef, ast.AsyncFunctionDef)):
             node.body = fix(node.body)
